@@ -34,7 +34,8 @@ fn nonspec_input() -> BoxedStrategy<(Vec<u8>, u8)> {
 
 /// (A, R, S) for raw_verify with the pass-through context digest: k = (R + 2^256 A) mod l is chosen.
 /// kind 0: k = target with arbitrary S (rejections, incl. S = 0 and k = 0 together: both scalars of the
-/// double-base multiplication are zero); kind 1: k = 0 and R = compress(S*B), an ACCEPTED signature for every message.
+/// double-base multiplication are zero); kind 1: R = compress(S*B) and the key solved for a special challenge
+/// (k = 0: an ACCEPTED signature for every message; k with zero words / single bits / small: a forgery that must be refused).
 pub fn chosen_k() -> BoxedStrategy<Req> {
     use crate::model::big::{U256, U512};
     use crate::model::ed::Aff;
@@ -53,10 +54,22 @@ pub fn chosen_k() -> BoxedStrategy<Req> {
         }
         Req::new("tot.verify_chosen_k", vec![a.to_vec(), r.to_le().to_vec(), s.to_vec(), m])
     });
-    let accept = (prop_oneof![2 => Just([0u8; 32]), 3 => scalar_canonical()], message()).prop_map(move |(s, m)| {
+    // R = [S]B with the key SOLVED so that the challenge is a chosen special value kt: accepted iff kt = 0 (then
+    // the key term vanishes); for kt with zero bytes / words, a single bit, small or all-ones values the key term
+    // does NOT vanish and the forgery must be refused (seeded change C09i: a "zero challenge" fast path that fired
+    // whenever ANY 32-bit word of k was zero)
+    let special_k = prop_oneof![
+        3 => Just(Sc::ZERO),
+        1 => Just(Sc::ONE),
+        2 => (0usize..252).prop_map(|i| Sc::from_u256(&U256::ONE.shl(i))),
+        2 => (0usize..8, any::<[u8; 32]>()).prop_map(|(w, mut b)| { b[31] &= 0x0f; for i in 0..4 { b[4 * w + i] = 0; } Sc::from_bytes_mod_order(&b) }),
+        1 => (0usize..32, any::<[u8; 32]>()).prop_map(|(w, mut b)| { b[31] &= 0x0f; b[w] = 0; Sc::from_bytes_mod_order(&b) }),
+        1 => (1u64..1000).prop_map(Sc::from_u64),
+    ];
+    let accept = (prop_oneof![2 => Just([0u8; 32]), 3 => scalar_canonical()], message(), special_k).prop_map(move |(s, m, kt)| {
         let r = Aff::basepoint().mul(&U256::from_le(&s)).compress();
-        // A = -R / 2^256 mod l + j*l for the first j that is a point encoding
-        let a0 = Sc::from_u256(&U256::from_le(&r)).neg().mul(&two256().inv());
+        // A = (kt - R) / 2^256 mod l + j*l for the first j that is a point encoding
+        let a0 = kt.sub(&Sc::from_u256(&U256::from_le(&r))).mul(&two256().inv());
         let mut a = a0.0;
         let mut enc = a.to_le();
         for _ in 0..16 {
